@@ -623,6 +623,26 @@ def tail_protocol(ctx, rr):
         plain = [a for a in ast.walk(wl[0]) if isinstance(a, ast.Assign) and any(ast.unparse(t) == 'self.tail' for t in a.targets)
                  and not any(ast.unparse(x) == 'self.tail' for x in ast.walk(a.value))]
         rr.ob(ctx.where(r, wl[0]), 'read: the tail is assembled from every chunk the loop reads', ok=not plain)
+        # ... as it is: the pascal field hands back exactly the bytes written (its own length byte says how many), so nothing is
+        # stripped, cut or replaced on the way into the tail
+        from ..dataflow import resolve_locals as _rlt
+        pieces = []
+        for x in ast.walk(wl[0]):
+            if isinstance(x, ast.Call) and isinstance(x.func, ast.Attribute) and x.func.attr in ('append', 'extend') and x.args and P.owner_of(r.node, x) is r.node:
+                pieces.append(x.args[0])
+            if isinstance(x, ast.AugAssign) and isinstance(x.op, ast.Add):
+                pieces.append(x.value)
+        altered = []
+        for e_ in pieces:
+            v_ = _rlt(P, r, e_)
+            if any(isinstance(c_, ast.Call) and isinstance(c_.func, ast.Attribute) and c_.func.attr in ('rstrip', 'strip', 'lstrip', 'replace', 'rstrip', 'decode', 'lower', 'upper', 'split',
+                                                                                                          'partition', 'rpartition', 'translate') for c_ in ast.walk(v_)) \
+                    or any(isinstance(c_, ast.Subscript) and isinstance(c_.slice, ast.Slice) for c_ in ast.walk(v_)):
+                altered.append(e_)
+        rr.ob(ctx.where(r, wl[0]), 'read: tail chunks enter the stem exactly as unpacked', ok=not altered)
+        for e_ in altered[:1]:
+            fail(r, e_, 'a tail chunk is altered before it is added to the stem (`%s`): a stem whose chunk ends (or starts) with the bytes removed reads back shorter than it was written, is '
+                 'not found again and gets stored twice' % ast.unparse(_rlt(P, r, e_))[:50])
         for a in plain[:1]:
             fail(r, a, 'the tail loop re-binds self.tail to the chunk just read (`%s`): for a stem of three blocks or more only the last chunk survives, the stem read back is not the '
                  'stem written' % ast.unparse(a)[:50])
